@@ -213,6 +213,9 @@ func (t *tr) function(fi *fnInfo) string {
 	if fi.mutates {
 		rts = append(rts, t.coqType(fi.decl, fi.recv.Type()))
 	}
+	if fi.mutParam != nil {
+		rts = append(rts, t.coqType(fi.decl, fi.mutParam.Type()))
+	}
 	for i := 0; i < sig.Results().Len(); i++ {
 		r := sig.Results().At(i)
 		if r.Name() != "" && r.Name() != "_" {
@@ -295,6 +298,9 @@ func (g *fnGen) shadowCheck() {
 
 // the result value: the (modified) receiver first, then the results
 func (g *fnGen) resultValue(vals []string) string {
+	if g.fi.mutParam != nil {
+		vals = append([]string{coqIdent(g.fi.mutParam.Name())}, vals...)
+	}
 	if g.fi.mutates {
 		vals = append([]string{g.recvName}, vals...)
 	}
@@ -479,6 +485,11 @@ func (g *fnGen) assigned(lo, hi token.Pos, nodes ...ast.Node) []svar {
 						place(sel.X, x)
 					}
 				}
+				if c := g.t.calleeOf(g.fi.pk, x); c != nil && c.mutParam != nil {
+					if a := g.mutArg(x, c); a != nil {
+						add(g.varOf(a), x)
+					}
+				}
 				if c := g.t.calleeOf(g.fi.pk, x); c != nil && c.mutVia {
 					if g.fi.via {
 						addVia()
@@ -497,6 +508,18 @@ func (g *fnGen) assigned(lo, hi token.Pos, nodes ...ast.Node) []svar {
 	}
 	sort.SliceStable(out, func(i, j int) bool { return out[i].pos < out[j].pos })
 	return out
+}
+
+// mutArg: the argument of the call that is passed for the callee's modified
+// interface parameter
+func (g *fnGen) mutArg(call *ast.CallExpr, c *fnInfo) ast.Expr {
+	csig := c.obj.Type().(*types.Signature)
+	for i := 0; i < csig.Params().Len() && i < len(call.Args); i++ {
+		if csig.Params().At(i) == c.mutParam {
+			return call.Args[i]
+		}
+	}
+	return nil
 }
 
 // viaBase: the sub-expression x.f (f a --via field) of a place that passes through it
@@ -877,7 +900,20 @@ func (g *fnGen) returnStmt(s *ast.ReturnStmt, k kctx) []string {
 		g.runDeferred(&p)
 		return emitPre(p, k.ret(g.resultValue(tmps)))
 	}
-	if len(s.Results) == 1 && sig.Results().Len() > 1 || (len(s.Results) == 1 && k.top && !g.fi.mutates && g.isMonadicCall(s.Results[0])) {
+	if g.fi.mutParam != nil && len(s.Results) == 1 && sig.Results().Len() == 1 {
+		// return h.M(..) / return f(h, ..) with a call that rebinds the modified
+		// interface parameter: the call first, then the parameter's new value and the result
+		if call, ok := ast.Unparen(s.Results[0]).(*ast.CallExpr); ok {
+			if c := g.t.calleeOf(g.fi.pk, call); c != nil && !c.errCtor && (c.mutates || c.mutParam != nil) {
+				tmp := g.fresh()
+				if !g.callStmt(call, &p, tmp) {
+					g.failf(s, "return of this call")
+				}
+				return emitPre(p, k.ret(g.resultValue([]string{tmp})))
+			}
+		}
+	}
+	if len(s.Results) == 1 && sig.Results().Len() > 1 || (len(s.Results) == 1 && k.top && !g.fi.mutates && g.fi.mutParam == nil && g.isMonadicCall(s.Results[0])) {
 		call, ok := ast.Unparen(s.Results[0]).(*ast.CallExpr)
 		if !ok {
 			g.failf(s, "return of a multi-value that is not a call")
@@ -886,7 +922,7 @@ func (g *fnGen) returnStmt(s *ast.ReturnStmt, k kctx) []string {
 			if n != sig.Results().Len() {
 				g.failf(s, "return of a call with %d results", n)
 			}
-			if k.top && !g.fi.mutates {
+			if k.top && !g.fi.mutates && g.fi.mutParam == nil {
 				return emitPre(p, []string{term}) // tail call
 			}
 			tmp := g.fresh()
@@ -894,14 +930,14 @@ func (g *fnGen) returnStmt(s *ast.ReturnStmt, k kctx) []string {
 			return emitPre(p, k.ret(g.resultValue([]string{tmp})))
 		}
 		c := g.t.calleeOf(g.fi.pk, call)
-		if c == nil || c.mutates || c.mutVia {
+		if c == nil || c.mutates || c.mutVia || c.mutParam != nil {
 			g.failf(s, "return of this call")
 		}
 		term := g.userCall(call, c, &p)
 		if c.pure {
 			return emitPre(p, k.ret(g.resultValue([]string{term})))
 		}
-		if k.top && !g.fi.mutates {
+		if k.top && !g.fi.mutates && g.fi.mutParam == nil {
 			return emitPre(p, []string{term}) // tail call
 		}
 		tmp := g.fresh()
@@ -1295,7 +1331,7 @@ func (g *fnGen) defaultFuel(node ast.Node, cond, post ast.Node, body *ast.BlockS
 			}
 			switch x := e.(type) {
 			case *ast.Ident:
-				if v, ok := g.info.Uses[x].(*types.Var); ok && !v.IsField() && isSliceType(v.Type()) && !(v.Pos() >= lo && v.Pos() < hi) {
+				if v, ok := g.info.Uses[x].(*types.Var); ok && !v.IsField() && (isSliceType(v.Type()) || g.t.devirtSlice(v.Type()) != nil) && !(v.Pos() >= lo && v.Pos() < hi) {
 					add(g.varName(v))
 				}
 			case *ast.SelectorExpr:
@@ -1465,7 +1501,7 @@ func (g *fnGen) assign(s *ast.AssignStmt) []string {
 					return emitPre(p, nil)
 				}
 				p = nil
-			} else if c := g.t.calleeOf(g.fi.pk, call); c != nil && !c.errCtor && (c.mutates || c.mutVia) {
+			} else if c := g.t.calleeOf(g.fi.pk, call); c != nil && !c.errCtor && (c.mutates || c.mutVia || c.mutParam != nil) {
 				// place = x.M(...) with M modifying its receiver: through a temporary
 				tmp := g.fresh()
 				if g.callStmt(call, &p, tmp) {
@@ -1623,6 +1659,14 @@ func (g *fnGen) callStmt(call *ast.CallExpr, p *[]binding, pats ...string) bool 
 			g.failf(call, "call with %d results bound to %d places", nres, len(pats))
 		}
 		var writeBack []string
+		if c.mutParam != nil {
+			// the callee returns the new value of the slice behind its interface parameter
+			id, ok := ast.Unparen(g.mutArg(call, c)).(*ast.Ident)
+			if !ok {
+				g.failf(call, "call of %s, which rebinds its interface parameter, with an argument that is not a variable", c.name)
+			}
+			pats = append([]string{coqIdent(id.Name)}, pats...)
+		}
 		if c.mutates {
 			sel := ast.Unparen(call.Fun).(*ast.SelectorExpr)
 			if id, ok := ast.Unparen(sel.X).(*ast.Ident); ok {
@@ -2372,7 +2416,7 @@ func (g *fnGen) call(call *ast.CallExpr, p *[]binding) string {
 			}
 			return c.name
 		}
-		if c.mutates || c.mutVia {
+		if c.mutates || c.mutVia || c.mutParam != nil {
 			g.failf(call, "call of the receiver-modifying method %s inside an expression (only as a statement or as the whole right-hand side)", c.name)
 		}
 		if c.obj.Type().(*types.Signature).Results().Len() != 1 {
@@ -2385,6 +2429,22 @@ func (g *fnGen) call(call *ast.CallExpr, p *[]binding) string {
 		tmp := g.fresh()
 		*p = append(*p, binding{pat: tmp, rhs: term})
 		return tmp
+	}
+	if g.t.timeInt {
+		// --timeint: time.Time is Z (nanoseconds on one clock)
+		if sel, ok := ast.Unparen(call.Fun).(*ast.SelectorExpr); ok && len(call.Args) == 1 {
+			switch libName(g.fi.pk, call) {
+			case "(time.Time).Before":
+				a, b := paren(g.expr(sel.X, p)), paren(g.expr(call.Args[0], p))
+				return "(" + a + " <? " + b + ")"
+			case "(time.Time).After":
+				a, b := paren(g.expr(sel.X, p)), paren(g.expr(call.Args[0], p))
+				return "(" + b + " <? " + a + ")"
+			case "(time.Time).Equal":
+				a, b := paren(g.expr(sel.X, p)), paren(g.expr(call.Args[0], p))
+				return "(" + a + " =? " + b + ")"
+			}
+		}
 	}
 	if term, nres, ok := g.ifaceTerm(call, p); ok {
 		if nres != 1 {
